@@ -10,6 +10,7 @@
   anything that existed before.  (The helper lemmas are in `Proofs/Store.lean`.)
 -/
 import SkyllhModel.Proofs.Store
+import SkyllhModel.Proofs.StoreR7
 
 open Store StoreP
 
@@ -1892,3 +1893,429 @@ example :
     let s := runX ⟨[], []⟩ [.base (.new [(0, ⟨.i64, [3, 1]⟩)]), .newShared 0 0, .base (.new [(0, ⟨.i64, [5, 6]⟩), (1, ⟨.f32, [7, 8]⟩)])]
     (s.conts.map (·.fields)) = [[(0, 0)], [(0, 0)], [(0, 1), (1, 2)]] ∧
     (stepH s (.setSel 2 (.idx [1, 0]) 2)).2 = .ok .unit := by decide
+
+
+/-! ## Round 7: the constructor with its options (`Model/StoreR7.lean`, helper lemmas in `Proofs/StoreR7.lean`)
+
+`ctorLoop` mirrors the field loop of `DataFieldRecordArray.__init__` (`keep_fields`, `dtype_conversions`,
+`dtype_conversion_except_fields`, `copy`, both length checks, `_len` from the first stored field). -/
+
+/-- Whenever the constructor returns, the new container holds exactly the plain table
+`copy(keep_fields)` followed by `convert_dtypes(dtype_conversions, except_fields)` of the input columns (names, order,
+dtypes, values), every stored column has length `_len`, and `_len = 0` when no field is stored — for **any** input
+(dict with columns of unequal length included), any options. -/
+theorem c16_ctor_spec (o : CtorOpts) (length : Nat) (cols : List (Name × Col)) (u : Upd)
+    (h : ctorUpd o length cols = .ok u) :
+    u.table.cols = ctorSpecCols o cols ∧ (∀ p ∈ u.table.cols, p.2.vals.length = u.len) ∧
+    (u.table.cols = [] → u.len = 0) := by
+  unfold ctorUpd at h
+  cases hl : ctorLoop o length none cols with
+  | error e => rw [hl] at h; simp at h
+  | ok v =>
+    obtain ⟨l', qs⟩ := v
+    rw [hl] at h
+    obtain ⟨i1, i2, _, i4, _, _⟩ := C16.ctorLoop_spec o length cols none l' qs hl
+    have hcols : ∀ (k : Nat), (⟨k, qs⟩ : Upd).table.cols = ctorSpecCols o cols := by
+      intro k; simpa [Upd.table] using i1
+    cases l' with
+    | none =>
+      simp only [Except.ok.injEq] at h
+      subst h
+      refine ⟨hcols 0, ?_, fun _ => rfl⟩
+      intro p hp
+      simp only [Upd.table, List.mem_map] at hp
+      obtain ⟨e, he, rfl⟩ := hp
+      exact absurd (i2 e he) (by simp)
+    | some k =>
+      simp only [Except.ok.injEq] at h
+      subst h
+      refine ⟨hcols k, ?_, ?_⟩
+      · intro p hp
+        simp only [Upd.table, List.mem_map] at hp
+        obtain ⟨e, he, rfl⟩ := hp
+        have := i2 e he
+        simp only [Option.some.injEq] at this
+        exact this.symm
+      · intro hnil
+        have : qs = [] := by simpa [Upd.table] using hnil
+        exact absurd (i4 this) (by simp)
+
+/-- the keys of the constructor's plain-table reading are a sublist of the input keys -/
+theorem C16.ctorSpecCols_keys_sublist (o : CtorOpts) (cols : List (Name × Col)) :
+    ((ctorSpecCols o cols).map (·.1)).Sublist (cols.map (·.1)) := by
+  unfold ctorSpecCols copyCols
+  simp only [List.map_map, Function.comp_def]
+  cases o.keep with
+  | none => simp
+  | some ks => exact (List.filter_sublist (l := cols)).map _
+
+/-- The constructor establishes the table invariant: distinct input names (dict keys / dtype names / a field list
+without duplicates) ⇒ the new container is a well-formed plain table (distinct names, all columns of length `_len`). -/
+theorem c16_ctor_wf (o : CtorOpts) (length : Nat) (cols : List (Name × Col)) (u : Upd)
+    (hnd : (cols.map (·.1)).Nodup) (h : ctorUpd o length cols = .ok u) : WF u.table := by
+  obtain ⟨h1, h2, _⟩ := c16_ctor_spec o length cols u h
+  refine ⟨?_, h2⟩
+  unfold Table.keys
+  rw [h1]
+  exact (C16.ctorSpecCols_keys_sublist o cols).nodup hnd
+
+/-- Provenance: the new container binds an array object of the input only when `copy=False` **and** the field is not
+converted (then it is the input column itself, same name); with `copy=True` every column is a fresh allocation and the
+input columns all had the length the accessor reported. -/
+theorem c16_ctor_prov (o : CtorOpts) (length : Nat) (cols : List (Name × Col)) (u : Upd)
+    (h : ctorUpd o length cols = .ok u) :
+    (∀ e ∈ u.cols, e.2.1 = .fresh ∨ (o.copy = false ∧ e.2.1 = .kept e.1 ∧ (e.1, e.2.2) ∈ cols)) ∧
+    (o.copy = true → ∀ e ∈ u.cols, e.2.1 = .fresh ∧ e.2.2.vals.length = length) := by
+  unfold ctorUpd at h
+  cases hl : ctorLoop o length none cols with
+  | error e => rw [hl] at h; simp at h
+  | ok v =>
+    obtain ⟨l', qs⟩ := v
+    rw [hl] at h
+    obtain ⟨_, _, _, _, i5, i6⟩ := C16.ctorLoop_spec o length cols none l' qs hl
+    cases l' <;> (simp only [Except.ok.injEq] at h; subst h; exact ⟨i5, i6⟩)
+
+/-- `DataFieldRecordArray(dfra, keep_fields, dtype_conversions, except_fields)` on a well-formed table is the plain
+table `copy(keep)` ; `convert_dtypes` — the same function `tableOp` uses for `.copy` and `.convert` — with the length
+rule of `.copy` (0 when no field is kept). -/
+theorem c16_ctor_table_eq_copy_convert (o : CtorOpts) (t : Table) (u : Upd) (hwf : WF t)
+    (h : ctorTable o t = .ok u) :
+    u.table = ⟨if (copyCols o.keep t.cols).isEmpty then 0 else t.len,
+               (copyCols o.keep t.cols).map fun p => (p.1, (convertCol o.convs o.exc p).2.2)⟩ := by
+  obtain ⟨h1, h2, h3⟩ := c16_ctor_spec o t.len t.cols u h
+  have hc : u.table.cols = (copyCols o.keep t.cols).map fun p => (p.1, (convertCol o.convs o.exc p).2.2) := h1
+  have hlen : u.table.len = u.len := rfl
+  cases hk : copyCols o.keep t.cols with
+  | nil =>
+    rw [hk] at hc
+    have := h3 (by rw [hc]; rfl)
+    cases hu : u.table with
+    | mk ul uc => rw [hu] at hc hlen; simp at hc hlen ⊢; exact ⟨by omega, hc⟩
+  | cons p r =>
+    rw [hk] at hc
+    have hp : p ∈ t.cols := by
+      have : p ∈ copyCols o.keep t.cols := by rw [hk]; exact List.mem_cons_self
+      unfold copyCols at this
+      cases ho : o.keep with
+      | none => rw [ho] at this; exact this
+      | some ks => rw [ho] at this; exact (List.mem_filter.mp this).1
+    have hl := h2 (p.1, (convertCol o.convs o.exc p).2.2) (by rw [hc]; exact List.mem_cons_self)
+    have hcl : (convertCol o.convs o.exc p).2.2.vals.length = p.2.vals.length := by
+      unfold convertCol
+      by_cases hx : p.1 ∈ o.exc
+      · simp [hx]
+      · simp only [List.contains_eq_mem, hx, decide_false, Bool.false_eq_true, if_false]
+        cases o.convs.lookup p.2.dt <;> simp [castCol]
+    have hpl := hwf.2 p hp
+    cases hu : u.table with
+    | mk ul uc =>
+      rw [hu] at hc hlen
+      simp only at hc hlen hl
+      simp only [List.isEmpty_cons, Bool.false_eq_true, if_false, Table.mk.injEq]
+      exact ⟨by rw [hlen, ← hl, hcl, hpl], hc⟩
+
+/-- no error under the stated guard: every kept input column has the reported length and every conversion that
+applies is allowed by numpy's `same_kind` rule ⇒ the constructor returns -/
+theorem c16_ctor_no_error (o : CtorOpts) (length : Nat) (cols : List (Name × Col))
+    (hlen : ∀ p ∈ cols, ctorKept o p.1 = true → p.2.vals.length = length)
+    (hkind : ∀ p ∈ cols, ∀ dt, ctorKept o p.1 = true → ctorConv o p = some dt → sameKind p.2.dt dt = true) :
+    ∃ u, ctorUpd o length cols = .ok u := by
+  have key : ∀ (cols : List (Name × Col)) (l : Option Nat),
+      (∀ p ∈ cols, ctorKept o p.1 = true → p.2.vals.length = length) →
+      (∀ p ∈ cols, ∀ dt, ctorKept o p.1 = true → ctorConv o p = some dt → sameKind p.2.dt dt = true) →
+      (l = none ∨ l = some length) →
+      ∃ l' qs, ctorLoop o length l cols = .ok (l', qs) ∧ (l' = none ∨ l' = some length) := by
+    intro cols
+    induction cols with
+    | nil => intro l _ _ hl; exact ⟨l, [], rfl, hl⟩
+    | cons p r ih =>
+      intro l h1 h2 hl
+      have h1r : ∀ q ∈ r, ctorKept o q.1 = true → q.2.vals.length = length :=
+        fun q hq => h1 q (List.mem_cons_of_mem _ hq)
+      have h2r : ∀ q ∈ r, ∀ dt, ctorKept o q.1 = true → ctorConv o q = some dt → sameKind q.2.dt dt = true :=
+        fun q hq => h2 q (List.mem_cons_of_mem _ hq)
+      unfold ctorLoop
+      by_cases hk : ctorKept o p.1 = true
+      · have hpl := h1 p List.mem_cons_self hk
+        have hf : ∃ q, ctorField o length l p = .ok (some length, q) := by
+          have hlen' : ∀ (q : Name × Prov × Col), q.2.2.vals.length = length →
+              ctorLen l q = .ok (some length, q) := by
+            intro q hq
+            unfold ctorLen
+            rcases hl with rfl | rfl
+            · simp [hq]
+            · simp [hq]
+          unfold ctorField
+          cases hc : ctorConv o p with
+          | some dt =>
+            have hs := h2 p List.mem_cons_self dt hk hc
+            simp only [hpl, ne_eq, not_true_eq_false, if_false, hs, Bool.not_true, Bool.false_eq_true]
+            exact ⟨_, hlen' _ (by simp [castCol, hpl])⟩
+          | none =>
+            by_cases hcp : o.copy = true
+            · simp only [hcp, if_true, hpl, ne_eq, not_true_eq_false, if_false]
+              exact ⟨_, hlen' _ hpl⟩
+            · simp only [hcp, if_false]
+              exact ⟨_, hlen' _ hpl⟩
+        obtain ⟨q, hq⟩ := hf
+        obtain ⟨l', qs, e1, e2⟩ := ih (some length) h1r h2r (Or.inr rfl)
+        refine ⟨l', q :: qs, ?_, e2⟩
+        simp only [hk, if_true, hq, e1]
+      · obtain ⟨l', qs, e1, e2⟩ := ih l h1r h2r hl
+        refine ⟨l', qs, ?_, e2⟩
+        simp only [hk, if_false, e1]
+        rfl
+  obtain ⟨l', qs, e1, _⟩ := key cols none hlen hkind (Or.inl rfl)
+  unfold ctorUpd
+  rw [e1]
+  cases l' with
+  | none => exact ⟨_, rfl⟩
+  | some k => exact ⟨_, rfl⟩
+
+/-- tie to the current source: with the defaults read from the signature of `DataFieldRecordArray.__init__`
+(`Generated/C16.lean`: `keep_fields=None`, no conversions, `copy=True`) the call `DataFieldRecordArray(data)` stores
+every input column under its name, unchanged, in a **fresh** array; and `copy(keep_fields)` — the constructor call in
+its body with the `copy` flag in effect there (explicit keyword, else the default) — binds only fresh arrays, whatever
+`keep_fields` is.  A changed default (`copy=False`, a non-`None` keep list) or a `copy()` that passes `copy=False`
+breaks this proof. -/
+theorem c16_ctor_defaults_for_current_source (length : Nat) (cols : List (Name × Col)) (u : Upd)
+    (h : ctorUpd Gen.C16.ctorDefaults length cols = .ok u) :
+    u.table.cols = cols ∧ (∀ e ∈ u.cols, e.2.1 = .fresh) ∧
+    (∀ (keep : Option (List Name)) (t : Table) (u' : Upd),
+        ctorTable ⟨keep, [], [], Gen.C16.copyEffectiveCopyFlag⟩ t = .ok u' → ∀ e ∈ u'.cols, e.2.1 = .fresh) ∧
+    Gen.C16.renameMustExistDefault = false ∧ Gen.C16.copyKeepDefaultIsNone = true := by
+  obtain ⟨h1, _, _⟩ := c16_ctor_spec _ length cols u h
+  obtain ⟨_, p2⟩ := c16_ctor_prov _ length cols u h
+  refine ⟨?_, fun e he => (p2 rfl e he).1, ?_, rfl, rfl⟩
+  · rw [h1]
+    simp [ctorSpecCols, copyCols, Gen.C16.ctorDefaults, Gen.C16.ctorKeepDefaultIsNone, convertCol]
+  · intro keep t u' hu e he
+    exact ((c16_ctor_prov _ t.len t.cols u' hu).2 rfl e he).1
+
+/-- non-vacuity: a dict `{0: int64[3,1], 1: float64[5,6], 2: bool[1,0]}`, `keep_fields=[1,0]`, `{float64: float32}`,
+`copy=False`: field 0 is the caller's array, field 1 a converted fresh one, field 2 dropped; an `int64 → bool`
+conversion raises TypeError (`same_kind`), a kept column of another length ValueError — also when only the *first,
+not kept* dict value has the other length and `copy=True` (the accessor's length is that of the first value). -/
+example :
+    (ctorDict ⟨some [1, 0], [(.f64, .f32)], [], false⟩ [(0, ⟨.i64, [3, 1]⟩), (1, ⟨.f64, [5, 6]⟩), (2, ⟨.b, [1, 0]⟩)]).toOption.map
+        (fun u => (u.len, u.cols)) =
+      some (2, [(0, .kept 0, ⟨.i64, [3, 1]⟩), (1, .fresh, ⟨.f32, [5, 6]⟩)]) ∧
+    (ctorDict ⟨none, [(.i64, .b)], [], true⟩ [(0, ⟨.i64, [3, 1]⟩)]).toOption.isNone = true ∧
+    (ctorDict ⟨some [1], [], [], true⟩ [(0, ⟨.i64, [3, 1, 4]⟩), (1, ⟨.f64, [5, 6]⟩)]).toOption.isNone = true ∧
+    (ctorDict ⟨some [1], [], [], false⟩ [(0, ⟨.i64, [3, 1, 4]⟩), (1, ⟨.f64, [5, 6]⟩)]).toOption.map (·.len) = some 2 ∧
+    (ctorDict ⟨some [], [], [], true⟩ [(0, ⟨.i64, [3, 1, 4]⟩)]).toOption.map (·.len) = some 0 := by decide
+
+/-! ### the constructor as an operation of a history (`stepCtorH` / `stepCtorT`) and `as_numpy_record_array` -/
+
+/-- **Refinement of the constructor with options inside any history**, locations possibly shared (`GoodS`):
+`DataFieldRecordArray(conts[d], keep_fields, dtype_conversions, except_fields, copy)` on the heap layer (fields stored
+with `copy=False` and no conversion are bound to the *input's* locations) computes the plain table
+`copy(keep)` ; `convert_dtypes` of table `d`; same result / same error; a raising call changes nothing; every
+existing container and heap cell is untouched. -/
+theorem c16_ctor_op_refines {s : St} {ts : List Table} (g : GoodS s ts) (d : Nat) (o : CtorOpts) :
+    GoodS (stepCtorH s d o).1 (stepCtorT ts d o).1 ∧ (stepCtorH s d o).2 = (stepCtorT ts d o).2 := by
+  unfold stepCtorH stepCtorT getT
+  cases hc : s.conts[d]? with
+  | none =>
+    rw [getElem_none g hc]
+    exact ⟨g, rfl⟩
+  | some cont =>
+    obtain ⟨t, htd, r⟩ := getElem_pair g hc
+    have wt : WF t := g.wf t (List.mem_of_getElem? htd)
+    simp only [htd, view_of_repS r wt]
+    cases hu : ctorTable o t with
+    | error e => exact ⟨g, rfl⟩
+    | ok u =>
+      simp only
+      have hk : (cont.fields.map (·.1)).Nodup := by rw [r.keys]; exact wt.1
+      have wfu : WF u.table := c16_ctor_wf o t.len t.cols u wt.1 hu
+      obtain ⟨hprov, _⟩ := c16_ctor_prov o t.len t.cols u hu
+      have hnw : ∀ e ∈ u.cols, wrefOf e.2.1 = none := by
+        intro e he
+        rcases hprov e he with h1 | ⟨_, h1, _⟩ <;> simp [h1, wrefOf]
+      obtain ⟨h', fs, hp, hfr, habs⟩ := place_spec_rebind cont.fields hk u.cols s.heap
+        (fun p hp => valid_of_repS r (n := p.1) hp) hnw (by
+          intro e he
+          unfold EntryOK
+          rcases hprov e he with h1 | ⟨_, h1, h2⟩
+          · simp [h1]
+          · simp only [h1]
+            obtain ⟨l, hl1, hl2⟩ := r.field_of_col h2
+            exact ⟨l, hl1, hl2⟩)
+      simp only [hp]
+      have hfskeys : fs.map (·.1) = u.cols.map (·.1) := by
+        have := congrArg (List.map (·.1)) habs
+        simpa [List.map_map, Function.comp_def] using this
+      refine ⟨⟨by simp [g.len], ?_, ?_⟩, by rw [g.len]⟩
+      · intro i ci ti hci hti
+        by_cases hi : i < s.conts.length
+        · rw [List.getElem?_append_left hi] at hci
+          rw [List.getElem?_append_left (by rw [← g.len]; exact hi)] at hti
+          have ri := g.rep i ci ti hci hti
+          exact repS_frame ri (fun n l hm => hfr l (valid_of_repS ri hm))
+        · have hi' : i = s.conts.length := by
+            have := (List.getElem?_eq_some_iff.mp hci).1
+            simp at this; omega
+          subst hi'
+          simp only [List.getElem?_concat_length, Option.some.injEq] at hci
+          rw [g.len, List.getElem?_concat_length, Option.some.injEq] at hti
+          subst hci hti
+          refine ⟨?_, ?_, rfl, Or.inl rfl⟩
+          · simp only [Upd.table, List.map_map, Function.comp_def]; exact habs
+          · simp only [Upd.table, Table.keys, List.map_map, Function.comp_def]; exact hfskeys
+      · intro t' ht'
+        rcases List.mem_append.mp ht' with h1 | h1
+        · exact g.wf t' h1
+        · simp at h1; rw [h1]; exact wfu
+
+/-- In **any** state (no invariant) the constructor only appends a container: every existing container is still there
+unchanged and every existing heap cell keeps its content — neither `copy=False` nor a conversion writes into the
+input's arrays. -/
+theorem c16_ctor_op_frame (s : St) (d : Nat) (o : CtorOpts) :
+    (∀ l, l < s.heap.length → (stepCtorH s d o).1.heap[l]? = s.heap[l]?) ∧
+    (∀ i, i < s.conts.length → (stepCtorH s d o).1.conts[i]? = s.conts[i]?) ∧
+    ((stepCtorH s d o).2 = .ok (.cont s.conts.length) ∨ ∃ e, (stepCtorH s d o) = (s, .error e)) := by
+  unfold stepCtorH
+  cases hc : s.conts[d]? with
+  | none => exact ⟨fun _ _ => rfl, fun _ _ => rfl, Or.inr ⟨_, rfl⟩⟩
+  | some cont =>
+    simp only
+    cases hv : viewCont s.heap cont with
+    | error e => exact ⟨fun _ _ => rfl, fun _ _ => rfl, Or.inr ⟨_, rfl⟩⟩
+    | ok t =>
+      simp only
+      cases hu : ctorTable o t with
+      | error e => exact ⟨fun _ _ => rfl, fun _ _ => rfl, Or.inr ⟨_, rfl⟩⟩
+      | ok u =>
+        simp only
+        cases hp : place cont.fields s.heap u.cols with
+        | error e => exact ⟨fun _ _ => rfl, fun _ _ => rfl, Or.inr ⟨_, rfl⟩⟩
+        | ok v =>
+          obtain ⟨h', fs⟩ := v
+          simp only
+          obtain ⟨hprov, _⟩ := c16_ctor_prov o t.len t.cols u hu
+          have hw : wrefs u.cols = [] := wrefs_nil_of (by
+            intro e he
+            rcases hprov e he with h1 | ⟨_, h1, _⟩ <;> simp [h1, wrefOf])
+          refine ⟨?_, ?_, Or.inl trivial⟩
+          · intro l hl
+            exact place_frame cont.fields u.cols s.heap h' fs hp l hl (by rw [hw]; simp)
+          · intro i hi
+            exact List.getElem?_append_left hi
+
+/-- `as_numpy_record_array` of a container in a consistent state (locations possibly shared) is the plain table it
+represents — field order, dtypes, values, `len(self)` rows; no broadcast and no ValueError can occur. -/
+theorem c16_record_array_is_table {s : St} {ts : List Table} (g : GoodS s ts) (i : Nat) (t : Table)
+    (ht : ts[i]? = some t) : asRecord s i = .ok t := by
+  have hv : viewAt s i = .ok t := by rw [view_eqS g]; simp [getT, ht]
+  have wt : WF t := g.wf t (List.mem_of_getElem? ht)
+  unfold asRecord
+  rw [hv]
+  have hm : ∀ (cols : List (Name × Col)), (∀ p ∈ cols, p.2.vals.length = t.len) →
+      mapE (recordCol t.len) cols = .ok cols := by
+    intro cols
+    induction cols with
+    | nil => intro _; rfl
+    | cons p r ih =>
+      intro hl
+      have h1 : recordCol t.len p = .ok p := by simp [recordCol, hl p List.mem_cons_self]
+      simp only [mapE, h1, ih (fun q hq => hl q (List.mem_cons_of_mem _ hq))]
+  simp only [hm t.cols wt.2]
+
+/-- non-vacuity: a history with a constructor call sharing one array with its input, then the record array -/
+example :
+    let s := (stepCtorH (runH ⟨[], []⟩ [.new [(0, ⟨.i64, [3, 1]⟩), (1, ⟨.f64, [5, 6]⟩)]]) 0
+              ⟨some [1, 0], [(.f64, .f32)], [], false⟩).1
+    (s.conts.map (·.fields)) = [[(0, 0), (1, 1)], [(0, 0), (1, 2)]] ∧
+    asRecord s 1 = .ok ⟨2, [(0, ⟨.i64, [3, 1]⟩), (1, ⟨.f32, [5, 6]⟩)]⟩ := by decide
+
+/-! ### which method maintains which cache
+
+`Model/StoreR7.lean` records which methods of the class assign `_indices`, `_field_name_list`, `_len` directly and which
+methods call which on `self` (`idxWritersM` …; regenerated from the ast on every run and reported in the evidence when
+the class body no longer has this structure — never a verdict, a rewrite may move a cache update into a helper). -/
+
+/-- The model updates the index cache in no operation whose method neither assigns `self._indices` nor calls a method
+that does. -/
+theorem c16_idx_writers (op : Op) (idx : Option (List Nat)) (len : Nat)
+    (h : writesVia idxWritersM delegatesM (opMethod op) = false) : idxUpd idx len op = idx := by
+  cases op <;> first | rfl | (exfalso; simp only [opMethod] at h; revert h; decide)
+
+/-- the same for `_field_name_list` (`append_field`, `remove_field`, `rename_fields` and their callers `__setitem__`, `tidy_up`) -/
+theorem c16_names_writers (op : Op) (names : List Name) (fs : List (Name × Loc))
+    (h : writesVia namesWritersM delegatesM (opMethod op) = false) : namesUpd names fs op = names := by
+  cases op <;> first | rfl | (exfalso; simp only [opMethod] at h; revert h; decide)
+
+/-- `_len`: an in-place operation whose method does not assign `self._len` keeps the length -/
+theorem c16_len_writers (ts : List Table) (hwf : ∀ t ∈ ts, WF t) (op : Op) (c : Nat) (u : Upd) (out : Out)
+    (h : tableOp (getT ts) ts.length op = .ok (.inplace c, u, out))
+    (hw : writesVia lenWritersM delegatesM (opMethod op) = false) :
+    ∃ t, ts[c]? = some t ∧ u.len = t.len := by
+  obtain ⟨_, t, htc, _, _, hlen⟩ := tableOp_ok ts hwf op (.inplace c) u out h
+  refine ⟨t, htc, hlen ?_⟩
+  cases op <;> first | trivial | (exfalso; simp only [opMethod] at hw; revert hw; decide)
+
+/-- tied to the ast of the current class body: every method in which an item assignment *into a stored array*
+(`self._data_fields[f][i] = …`) occurs — directly or through a method it calls on `self` — is `set_selection` /
+`__setitem__`, the model's only write-through operations (`c16_rebind_ops_frame` covers all others).  A method that
+starts to write into the existing buffers (e.g. an in-place `sort_by_field`) breaks this proof. -/
+theorem c16_array_writers_for_current_source (op : Op)
+    (h : writesVia Gen.C16.arrayWriters Gen.C16.delegates (opMethod op) = true) :
+    (∃ c sel d, op = .setSel c sel d) ∨ (∃ c n col, op = .setItem c n col) := by
+  cases op <;> first | (exfalso; simp only [opMethod] at h; revert h; decide) | exact Or.inl ⟨_, _, _, rfl⟩ | exact Or.inr ⟨_, _, _, rfl⟩
+
+/-- a raising operation changes neither layer in every state reachable from the empty store (hypothesis `Good` of
+`c16_error_no_change` discharged by `c16_refines_from_init`) -/
+theorem c16_error_no_change_reachable (ops : List Op) (op : Op) (e : Err)
+    (h : (stepH (runH ⟨[], []⟩ ops) op).2 = .error e) :
+    (stepH (runH ⟨[], []⟩ ops) op).1 = runH ⟨[], []⟩ ops ∧ (stepT (runT [] ops) op).1 = runT [] ops :=
+  c16_error_no_change (c16_refines_from_init ops) op e h
+
+/-- **Copies made through the constructor share no memory with their origin**, in any state (no invariant), whatever
+`keep_fields` / conversions are: with `copy=True` (the default, and what `copy()` passes on) the new container sits at
+new, pairwise distinct locations and no existing heap cell changes. -/
+theorem c16_ctor_op_fresh_any (s : St) (d : Nat) (o : CtorOpts) (out : Out) (hc : o.copy = true)
+    (h : (stepCtorH s d o).2 = .ok out) :
+    ∃ cnew, (stepCtorH s d o).1.conts = s.conts ++ [cnew] ∧ (cnew.fields.map (·.2)).Nodup ∧
+      (∀ p ∈ cnew.fields, s.heap.length ≤ p.2) ∧
+      ∀ (l : Nat), l < s.heap.length → (stepCtorH s d o).1.heap[l]? = s.heap[l]? := by
+  unfold stepCtorH at h ⊢
+  cases hcd : s.conts[d]? with
+  | none => rw [hcd] at h; cases h
+  | some cont =>
+    rw [hcd] at h
+    simp only at h ⊢
+    cases hv : viewCont s.heap cont with
+    | error e => rw [hv] at h; cases h
+    | ok t =>
+      rw [hv] at h
+      simp only at h ⊢
+      cases hu : ctorTable o t with
+      | error e => rw [hu] at h; cases h
+      | ok u =>
+        simp only
+        have hfresh := (c16_ctor_prov o t.len t.cols u hu).2 hc
+        have hgen : ∀ (l : PCols), (∀ e ∈ l, e.2.1 = .fresh) → l = l.map (fun x => (x.1, Prov.fresh, x.2.2)) := by
+          intro l
+          induction l with
+          | nil => intro _; rfl
+          | cons e r ih =>
+            intro hl
+            obtain ⟨n, pr, col⟩ := e
+            have h1 : pr = .fresh := hl (n, pr, col) List.mem_cons_self
+            subst h1
+            simp only [List.map_cons]
+            rw [← ih (fun e he => hl e (List.mem_cons_of_mem _ he))]
+        have hcols : u.cols = freshAll u.table.cols := by
+          simp only [freshAll, Upd.table, List.map_map, Function.comp_def]
+          exact hgen u.cols (fun e he => (hfresh e he).1)
+        obtain ⟨fs, hp, hfs⟩ := C16.place_freshAll cont.fields u.table.cols s.heap
+        rw [hcols, hp]
+        refine ⟨_, rfl, ?_, ?_, ?_⟩
+        · simp only [hfs]; exact List.nodup_range'
+        · intro p hp'
+          have : p.2 ∈ fs.map (·.2) := List.mem_map.mpr ⟨p, hp', rfl⟩
+          rw [hfs] at this
+          exact (List.mem_range'_1.mp this).1
+        · intro l hl
+          exact List.getElem?_append_left hl
